@@ -269,7 +269,8 @@ static void run_cell(const struct macro *m, unsigned R, int S, struct cell *c)
         close(pe[0]); close(pe[1]); close(po[0]); close(po[1]);
         alarm(60);
         libast_debug_level = R;
-        libast_set_silent(S ? TRUE : FALSE);
+        /* any non-zero flag silences: odd runtime levels use TRUE, even ones another true value */
+        libast_set_silent(S ? ((R & 1) ? TRUE : (spif_bool_t) 4) : FALSE);
         if (m->fi) g->rval = m->fi(); else m->fv();
         g->finished = 1;
         fflush(NULL);
